@@ -166,6 +166,7 @@ type vfHostile struct {
 	name  string
 	class string // ignore | abort | free
 	raw   []byte
+	post  func() string // extra white-box check after the probe ("" = fine)
 }
 
 type vfTargetInfo struct {
@@ -176,6 +177,7 @@ type vfTargetInfo struct {
 	state             uint32
 	inflight          int
 	genuine           map[string][]byte // first genuine packet of each handshake kind that was delivered to the target
+	assoc             *Association
 }
 
 func vfTarget(a *Association) vfTargetInfo {
@@ -193,7 +195,7 @@ func vfTarget(a *Association) vfTargetInfo {
 func vfHostileList(r *vfRand, ti vfTargetInfo) []vfHostile {
 	var out []vfHostile
 	pk := func() *vfBuilder { return vfNewPacket(5000, 5000, ti.vtag) }
-	add := func(name, class string, raw []byte) { out = append(out, vfHostile{name, class, raw}) }
+	add := func(name, class string, raw []byte) { out = append(out, vfHostile{name: name, class: class, raw: raw}) }
 	est := ti.state == established
 	dataKind, otherKind := byte(vfCtData), byte(vfCtIData)
 	fwdKind, otherFwd := byte(vfCtForwardTSN), byte(vfCtIForwardTSN)
@@ -292,6 +294,52 @@ func vfHostileList(r *vfRand, ti vfTargetInfo) []vfHostile {
 			}
 			add("replay-genuine-"+k, cl, raw)
 		}
+	}
+	// invalid DATA aimed at a message that is complete but not read yet: a further fragment (fresh TSN far ahead in
+	// the window, FSN behind the ending fragment) must not be merged into it
+	if ti.il && ti.assoc != nil && est {
+		a := ti.assoc
+		a.lock.RLock()
+		for sid, st := range a.streams {
+			st.lock.RLock()
+			rq := st.reassemblyQueue
+			for _, set := range rq.orderedMID {
+				if !set.isComplete() || len(set.chunks) == 0 {
+					continue
+				}
+				mid, sidc, stc := set.mid, sid, st
+				lastFSN := set.chunks[len(set.chunks)-1].fragmentSequenceNumber
+				nb := 0
+				for _, c := range set.chunks {
+					nb += len(c.userData)
+				}
+				for k, fl := range []byte{0, 1} { // middle fragment / another ending fragment
+					raw := pk().chunk(vfCtIData, fl, vfIDataVal(ti.peerLast+1000+uint32(len(out)), sidc, mid, lastFSN+1+uint32(k), []byte("zz"))).bytes(true) //nolint:gosec
+					out = append(out, vfHostile{name: fmt.Sprintf("idata-extend-complete-message-%d", k), class: "free", raw: raw, post: func() string {
+						stc.lock.RLock()
+						defer stc.lock.RUnlock()
+						for _, s2 := range stc.reassemblyQueue.orderedMID {
+							if s2.mid != mid {
+								continue
+							}
+							got := 0
+							for _, c := range s2.chunks {
+								got += len(c.userData)
+							}
+							if !s2.isComplete() || got != nb {
+								return fmt.Sprintf("stream %d: the complete unread message MID %d (%d bytes) was altered by an I-DATA fragment with FSN behind its ending fragment: now complete=%v, %d bytes", sidc, mid, nb, s2.isComplete(), got)
+							}
+						}
+
+						return ""
+					}})
+				}
+
+				break
+			}
+			st.lock.RUnlock()
+		}
+		a.lock.RUnlock()
 	}
 	add("cookie-echo-wrong-cookie", "ignore", pk().chunk(vfCtCookieEcho, 0, []byte("not-the-cookie-you-sent")).bytes(true))
 	cls = "ignore"
@@ -573,6 +621,7 @@ func vfRunHostile(t *testing.T, spec *vfSpec, res *vfRes) {
 		}
 		res.mu.Unlock()
 		ti := vfTarget(a)
+		ti.assoc = a
 		ti.genuine = map[string][]byte{}
 		for _, e := range sim.net.events() {
 			if e.Kind == vfWrDeliver && e.Side == 0 {
@@ -615,6 +664,12 @@ func vfRunHostile(t *testing.T, spec *vfSpec, res *vfRes) {
 			}
 			if cpu > 2*time.Second {
 				res.violate("C03", "assoc/slow/"+h.name, "state %s/%s: processing hostile packet %s took %v of CPU", vfStateNames[want], ctxKind, h.name, cpu)
+			}
+			if h.post != nil {
+				res.count("c03_post_checks", 1)
+				if msg := h.post(); msg != "" {
+					res.violate("C03", "assoc/data-tampered/"+h.name, "state %s/%s: %s", vfStateNames[want], ctxKind, msg)
+				}
 			}
 			switch h.class {
 			case "ignore":
@@ -660,6 +715,7 @@ func vfRunHostile(t *testing.T, spec *vfSpec, res *vfRes) {
 		if onlyIgnore && want == established && w != nil && a.getState() == established {
 			sim.net.release()
 			sim.net.healNow()
+			w.resumeReaders()
 			drained := w.waitWriters(5*time.Minute) && w.waitDrained(sim.healBound())
 			if !drained {
 				res.violate("C03", "assoc/transfer-stalled-after-ignore", "state established/%s: after %d must-ignore packets the surrounding transfer did not complete", ctxKind, len(picked))
@@ -687,7 +743,7 @@ func vfRunHostile(t *testing.T, spec *vfSpec, res *vfRes) {
 func vfGenHostileSpecs(tier string, seed uint64, race bool) []vfSpec {
 	var out []vfSpec
 	states := []uint32{closed, cookieWait, cookieEchoed, established, shutdownPending, shutdownSent, shutdownReceived, shutdownAckSent}
-	ctxs := []string{"idle", "inflight", "reset", "zerowin"}
+	ctxs := []string{"idle", "inflight", "reset", "zerowin", "unread"}
 	reps := vfTierN(tier, 4, 40)
 	if race {
 		reps = 1
@@ -717,6 +773,11 @@ func vfGenHostileSpecs(tier string, seed uint64, race bool) []vfSpec {
 						if cx == "zerowin" {
 							sp.B.RecvBuf, sp.A.RecvBuf = 8192, 8192
 						}
+						if cx == "unread" {
+							// interleaving on, the target's readers paused: complete messages wait unread in its queues
+							sp.A.IL, sp.B.IL = true, true
+							il = true
+						}
 						for i := 0; i < 3; i++ {
 							sc := vfStreamCfg{SID: uint16(i + 1), Dir: i % 2, NMsgs: 30 + r.Intn(40), SizeMode: "mixed", Reader: "fast"} //nolint:gosec
 							if st == shutdownPending || st == shutdownReceived {
@@ -728,6 +789,12 @@ func vfGenHostileSpecs(tier string, seed uint64, race bool) []vfSpec {
 							if cx == "zerowin" {
 								sc.Reader = "slow"
 								sc.SizeMode = "small"
+							}
+							if cx == "unread" {
+								sc.Dir = 1
+								sc.Reader = "pause"
+								sc.NMsgs = 10 + r.Intn(10)
+								sc.RelType, sc.RelVal = 0, 0
 							}
 							if r.Intn(3) == 0 {
 								sc.RelType, sc.RelVal = ReliabilityTypeRexmit, 1
